@@ -143,7 +143,8 @@ def num(x):
     if x != x or x in (float('inf'), float('-inf')):
         raise Unrepresentable('non-finite float')
     fr = Fraction(x).limit_denominator(100000)
-    if abs(float(fr) - x) > 1e-9 * max(1.0, abs(x)) or abs(fr.numerator) >= 2 ** 30:
+    # RELATIVE tolerance: for small |x| an absolute one accepts a wrong nearby rational (-31/80199 for 10/201/2023/...)
+    if abs(float(fr) - x) > 1e-12 * abs(x) or abs(fr.numerator) >= 2 ** 30:
         raise Unrepresentable('float not a small rational')
     return {'t': 'num', 'n': fr.numerator, 'd': fr.denominator, 'f': True}
 
